@@ -344,6 +344,14 @@ def _obs_plan(case, k):
         for t in pool[:3]:
             plan.append(("ctxs", None, list(t)))
         plan.append(("ctxs", None, [probe[0], None, probe[2]]))
+        # Graph.triples_choices: a list of 0..3 terms (repeats possible) in one rotating position, the two others
+        # bound / wild-carded in turn
+        si = k % 3
+        cs = [pool[(k + j) % len(pool)][si] for j in range((k // 3) % 4)]
+        others = [i for i in range(3) if i != si]
+        a = probe[others[0]] if k % 2 else None
+        b = probe[others[1]] if (k // 2) % 2 else None
+        plan.append(("tch", k % 3, (si, cs, a, b)))
     return plan
 
 
@@ -413,6 +421,9 @@ def _obs_lines(case, k):
             out.append(f"mtri {_w(g)} " + " ".join(_w(v) for v in x))
         elif kind == "ctxs":
             out.append("ctxs " + " ".join(_w(v) for v in x))
+        elif kind == "tch":
+            si, cs, a, b = x
+            out.append(f"tch {g} {'spo'[si]} {_w(a)} {_w(b)} " + " ".join(map(str, cs)))
         else:
             out.append(f"{pre}{kind} {g} " + " ".join(_w(v) for v in x))
     return out
@@ -664,6 +675,22 @@ def _observe(w, case, k, obs, viol):
         go = w.objs[g][(k + g) % 2]
         S = w.sets[g]
         try:
+            if kind == "tch":
+                si, cs, a, b = x
+                others = [i for i in range(3) if i != si]
+                arg = [None, None, None]
+                arg[si] = [TERMS[c] for c in cs]
+                arg[others[0]], arg[others[1]] = _term(a), _term(b)
+                got = [_ids(t) for t in go.triples_choices(tuple(arg))]
+                obs.append(_fmt(got))
+                base = [t for t in S if (a is None or t[others[0]] == a) and (b is None or t[others[1]] == b)]
+                # the statement's reading: the matching triples whose term in the list's position is one of the
+                # choices (empty list = wildcard); a choice given twice is asked for twice
+                want = sorted(base) if not cs else sorted(t for c in cs for t in base if t[si] == c)
+                if sorted(got) != want:
+                    viol.append(f"choices: after op {k} graph {g} triples_choices(slot {'spo'[si]}, {cs}, others {a},{b}) "
+                                f"gave {sorted(got)} expected {want}")
+                continue
             if kind == "len":
                 n = len(go)
                 obs.append(str(n))
@@ -708,13 +735,21 @@ def _iter_admissible(lines, expect):
         return "iter-adm:no-driver " + type(e).__name__, 0, 0
     out = p.stdout.split("\n")
     exact = diverge = 0
+    snapshot = set()   # generators over the all-unbound shape: a copy of a Python SET is walked, its order is hash order
     for i, (ln, o) in enumerate(zip(lines, out)):
         if ln.startswith("iyield") and o != "adm":
             return "iter-adm:" + o + " " + ln, exact, diverge
         if o in ("bad-op", "error"):
             return "iter-adm:" + o + " " + ln, exact, diverge
+        if ln.startswith("gopen") and ln.split()[3:6] == ["*", "*", "*"]:
+            snapshot.add(ln.split()[1])
         if ln.startswith("gnext"):
-            if o == expect.get(i):
+            if ln.split()[1] in snapshot:   # compare only yield-vs-stop (the number of yields = size of the start copy)
+                if (o == "stop") == (expect.get(i) == "stop"):
+                    exact += 1
+                else:
+                    diverge += 1
+            elif o == expect.get(i):
                 exact += 1
             else:
                 diverge += 1
